@@ -16,8 +16,11 @@ def client_part(res):
     hists = [_updater.line_of(rng.choice([0, 1000, 50000]), _updater.gen_history(rng, 6, _updater.MIXES[2])) for _ in range(60)]
     outs = c.run_lines(binary, hists)
     recs = set()
-    for o in outs:
-        for r in (_updater.parse_out(o) or []):
+    for ln, o in zip(hists, outs):
+        _, hist = _updater.parse_line(ln)
+        for m, r in zip(hist, _updater.parse_out(o) or []):
+            if m[0] == "r" and _updater.msg_class(m) == 1:
+                break                      # from the first synchronised report on the records are measurements
             recs.add(r)
     recs = sorted(recs)
     lines, meta = [], []
